@@ -59,6 +59,9 @@ type Result struct {
 // Scenario runs one property scenario on a run.
 type Scenario func(r *Run, job *Job)
 
+// needsInventory lists the properties whose scenarios draw hold targets from the lock-site inventory.
+var needsInventory = map[string]bool{"C07": true, "C08": true}
+
 // Scenarios is the registry: property id (or "id/profile") -> scenario.
 var Scenarios = map[string]Scenario{}
 
@@ -79,6 +82,9 @@ func Execute(t *testing.T, job *Job) (res Result) {
 		tape = NewTape(job.Seed)
 	}
 	r := newRun(tape)
+	if job.Prop != "INVENTORY" && needsInventory[job.Prop] {
+		r.Sites = Inventory(t)
+	}
 	scen, ok := Scenarios[job.Prop+"/"+job.Profile]
 	if !ok {
 		scen, ok = Scenarios[job.Prop]
